@@ -50,9 +50,17 @@ Section Frame.
   Qed.
   Lemma remove_meta_frame v : inR v -> remove_meta h v = remove_meta h' v.
   Proof.
-    destruct v; try reflexivity; intros I; cbn [remove_meta]; f_equal; apply filter_ext_in'; intros x Hx; f_equal.
-    - apply is_meta_frame. apply (inR_list l x I Hx).
-    - apply is_meta_frame. apply (inR_dict l x I Hx).
+    induction v as [| z | b | b | s | s | q | l IHl | l IHl | n] using value_ind2; try reflexivity; intros I.
+    - rewrite !remove_meta_list. f_equal.
+      rewrite (filter_ext_in' (fun x => negb (is_meta h x)) (fun x => negb (is_meta h' x)) l)
+        by (intros x Hx; f_equal; apply is_meta_frame, (inR_list l x I Hx)).
+      apply map_ext_in. intros x Hx. apply filter_In in Hx. rewrite Forall_forall in IHl.
+      apply (IHl x (proj1 Hx)). apply (inR_list l x I (proj1 Hx)).
+    - rewrite !remove_meta_dict. f_equal.
+      rewrite (filter_ext_in' (fun kv : list N * value => negb (is_meta h (snd kv))) (fun kv : list N * value => negb (is_meta h' (snd kv))) l)
+        by (intros x Hx; f_equal; apply is_meta_frame, (inR_dict l x I Hx)).
+      apply map_ext_in. intros x Hx. apply filter_In in Hx. rewrite Forall_forall in IHl. cbn beta. f_equal.
+      apply (IHl x (proj1 Hx)). apply (inR_dict l x I (proj1 Hx)).
   Qed.
 
   Lemma argsel_of_frame fields a : (forall k v, In (k, v) fields -> inR v) ->
